@@ -1,6 +1,5 @@
 import BPT.Rust.Top2
 import BPT.Core.Sorted
-import BPT.Generated.Tie
 /-
   C01 — Rust map: every call history agrees with a reference ordered map.
 
